@@ -9,6 +9,9 @@ Oracle on the implementation, on two real files in a tempfile.mkdtemp() director
   eval mode: a statement position that was addressed carries `name: Literal[<the evaluated values>]` (through the template).
   A point may ask for input file == output file (two locations of one module): then only that file exists.
 Failures are classified by finding_class_C14 (Coq, through the driver); class None = inside the proved region.
+Where that classifier is silent and a node other than the addressed ones changed, the refined classifier finding_class_C14_r
+(coq/model/C14Spec2.v) is given the module the output file really holds afterwards: it names other-docstring-reformatted
+when the difference is confined to docstring constants with one normal form, and nothing else.
 A recorded finding class stands for the kinds of failure it describes only (NEVER_ABSORBED, eval_surrogate): the safety
 clauses of the property (input file untouched, an error leaves the output file alone, no stray files, nothing is written
 that the formatter rejects) are broken by none of the recorded classes, so such a failure is a violation whatever class
@@ -20,6 +23,7 @@ import shutil
 import tempfile
 
 from common import Sym, dumps, loads, impl, run_model, unhx
+import astwire
 import gen_module as GM
 import fam_syncprops
 from fam_locate import paths
@@ -153,6 +157,16 @@ def impl_holds(pt):
 
 def impl_judge(pt):
     """C14 at one point on the real code -> (holds, what, kind of failure)"""
+    return impl_judge_ex(pt)[:3]
+
+
+def impl_judge_ex(pt):
+    """-> (holds, what, kind of failure, text of the output file after the call or None)"""
+    r = _impl_judge(pt)
+    return r if len(r) == 4 else r + (None,)
+
+
+def _impl_judge(pt):
     ev, isrc, ips, osrc, ops, wrap = pt["args"][:6]
     same_file = len(pt["args"]) > 6 and bool(pt["args"][6])
     m = impl()
@@ -233,8 +247,26 @@ def impl_judge(pt):
             return False, "the addressed position %s no longer exists in the output" % (p,), "position-gone"
         _apply_mask(otree0, p)
     if dump_masked(otree0, set()) != dump_masked(otree1, set()):
-        return False, "a node other than the addressed ones changed", "other-node-changed"
+        return False, "a node other than the addressed ones changed", "other-node-changed", out_after.decode("utf-8")
     return True, "", None
+
+
+NEW_CLASS = "other-docstring-reformatted"
+
+
+def refined_class(pt, wire, after_text):
+    """-> (class, only docstrings differ?).  The class finding_class_C14_r (coq/model/C14Spec2.v) gives the call together
+    with the module the output file really holds afterwards, asked when a node other than the addressed ones changed.
+    The new class is given only where the old classifier is silent and the two files, addressed positions masked, differ
+    in nothing but docstring constants that have one normal form (blanks ending a line dropped, inspect.cleandoc); that
+    test, made in Coq on the two trees, is also returned on its own."""
+    try:
+        after = [Sym("some"), astwire.enc_module(ast.parse(after_text))]
+        outs = run_model([dumps([Sym(fn)] + wire + [after]) for fn in ("c14_class_r", "c14_docstrings_only")])
+        e = loads(outs[0])
+    except Exception:  # noqa  (a written file outside the wire: stays unclassified)
+        return None, False
+    return (unhx(e[1]) if isinstance(e, list) and len(e) == 2 and e[0] == "some" else None), outs[1] == "true"
 
 
 def eval_surrogate(pt):
@@ -287,14 +319,19 @@ def oracle(rng, tier):
     classes, mholds = outs[:len(pts)], outs[len(pts):]
     failures, hist, seen, disagree = [], collections.Counter(), set(), []
     n_eval = 0
-    for p, c, mh in zip(pts, classes, mholds):
+    for p, w, c, mh in zip(pts, wires, classes, mholds):
         if c == "out-of-domain":
             hist["out-of-domain"] += 1
             continue
         ce = loads(c)
         cls = None if ce == "none" else unhx(ce[1])
-        ok, what, kind = impl_judge(p)
+        ok, what, kind, after_text = impl_judge_ex(p)
         n_eval += 1
+        reformatted = False
+        if not ok and kind == "other-node-changed":
+            cls_r, reformatted = refined_class(p, w, after_text)
+            if cls is None:
+                cls = cls_r
         if not ok and cls is not None:
             if kind in NEVER_ABSORBED:
                 hist["not-absorbed:%s:%s" % (cls, kind)] += 1
@@ -312,7 +349,10 @@ def oracle(rng, tier):
         if cls is None:
             seen.add(dumps([p["args"][0], p["args"][1], list(p["args"][2]), p["args"][3], list(p["args"][4]),
                             p["args"][5] or ""]))
-        if mh in ("true", "false") and (mh == "true") != ok:
+        # (the model judges the tree handed to emit.file; what the class other-docstring-reformatted describes is done to
+        # the text afterwards, by the formatter: where the written file differs from the original in reformatted docstrings
+        # only, the model holds and the file does not - the recorded finding, not a broken correspondence)
+        if mh in ("true", "false") and (mh == "true") != ok and not reformatted:
             disagree.append({"case": p, "model_holds": mh, "impl_holds": ok, "what": what, "class": cls})
         if not ok:
             failures.append({"case": p, "what": what, "class": cls})
